@@ -206,12 +206,11 @@ def maxLineLen : Nat := 2048
 def parseLine (raw : Bytes) (no : Nat) : Option Line :=
   if raw.length ≥ maxLineLen then none else
   let line := raw.dropWhile isBlank
-  match line with
-  | [] => none
-  | 35 :: _ => none
-  | c :: _ =>
+  if line.isEmpty then none
+  else if line.head? == some 35 then none
+  else
     let split : Option (Bytes × Bytes) :=
-      if c == 34 then
+      if line.head? == some 34 then
         match undo line with
         | some (u, consumed) => some (u, line.drop consumed)
         | none => none
